@@ -86,6 +86,38 @@ SPEC_FUNS = {
 }
 
 
+def _const_str(t):
+    if isinstance(t, str):
+        return t
+    if z3.is_string_value(t):
+        return t.as_string()
+    raise ValueError("spec function needs a literal character set")
+
+
+def _pystrip_smt(s, chars):
+    chars = _const_str(chars)
+    tag = smt.sha("strip:" + "".join(sorted(set(chars))))[:8]
+    return z3.Function("strip_%s" % tag, S, S)(s)
+
+
+def _prefix_len_smt(s, chars):
+    chars = "".join(sorted(set(_const_str(chars))))
+    return z3.Function("preflen_" + smt.sha(chars)[:8], S, I)(s)
+
+
+def _prefix_len_py(s, chars):
+    k = 0
+    while k < len(s) and s[k] in chars:
+        k += 1
+    return k
+
+
+SPEC_FUNS["pystrip"] = SpecFun("pystrip", _pystrip_smt, lambda s, chars: s.strip(chars), "str")
+SPEC_FUNS["prefix_len"] = SpecFun("prefix_len", _prefix_len_smt, _prefix_len_py, "int")
+SPEC_FUNS["casefold"] = SpecFun("casefold", lambda s: smt.casefold(s), lambda s: smt.note_casefold(s), "str")
+SPEC_FUNS["str_to_int"] = SpecFun("str_to_int", lambda s: smt.int_of_str(s), int, "int")
+
+
 def _py_int_ok(s):
     try:
         int(s)
@@ -111,6 +143,7 @@ SPEC_GLOBALS = {
     "implies": SpecOp("implies"),
     "iff": SpecOp("iff"),
     "typeis": SpecOp("typeis"),
+    "forall_str": SpecOp("forall_str"),
 }
 SPEC_GLOBALS.update(SPEC_FUNS)
 
